@@ -44,20 +44,23 @@ BaseToks == {Plain(NarseseToks(v)) : v \in BaseValues}
 InsertPool == {F.seL, F.compR, F.stL, F.stR, F.sep, F.cop["Inheritance"], F.punct["Judgement"], F.truthL, F.budL, <<"a">>, <<"1">>, <<" ">>}
 
 \* the text of a state: tokens joined; in mut mode `w` is a record [toks, cut] (cut = keep that many characters; 0 = all)
-TextOf == IF mode \in {"tok", "core", "tiny"} THEN Cat([i \in 1..Len(w) |-> Alpha[w[i]]])
+TextOf == IF mode \in {"tok", "core", "tiny", "item"} THEN Cat([i \in 1..Len(w) |-> Alpha[w[i]]])
           ELSE LET full == Join(w.toks, IF w.spaced THEN <<" ">> ELSE <<>>) IN IF w.cut = 0 THEN full ELSE SubSeq(full, 1, Min2(w.cut, Len(full)))
 
 \* an even smaller alphabet (brackets, one separator, one name) for the deepest strings: cursor overshoot needs many unterminated brackets
 Tiny == {i \in 1..Len(Alpha) : Alpha[i] \in {F.seL, F.compL, F.stL, F.stR, F.sep, F.conn["Conjunction"], F.cop["Inheritance"], <<"a">>}}
-\* three tracks: "tok" grows over the whole alphabet up to MAXTOK tokens (the last token from Core in the quick tier),
+\* the item-level alphabet: brackets of truth, budget and stamp, a punctuation, a space, one name, one number (error paths of consume_one)
+Items == {i \in 1..Len(Alpha) : Alpha[i] \in {F.truthL, F.truthR, F.budL, F.budR, F.punct["Judgement"], F.stampL, F.stampR, <<" ">>, <<"a">>, <<"1">>}}
+\* four tracks: "item" over Items up to MAXTINY - 1;  "tok" grows over the whole alphabet up to MAXTOK tokens (the last token from Core in the quick tier),
 \* "core" over Core up to MAXCORE, "tiny" over Tiny up to MAXTINY
-Init == \/ mode \in {"tok", "core", "tiny"} /\ w = <<>> /\ edits = 0
+Init == \/ mode \in {"tok", "core", "tiny", "item"} /\ w = <<>> /\ edits = 0
         \/ mode = "mut" /\ \E t \in BaseToks : \E sp \in BOOLEAN : w = [toks |-> t, cut |-> 0, spaced |-> sp] /\ edits = 0
 Grow == \/ /\ mode = "tok" /\ Len(w) < MAXTOK
            /\ \E i \in 1..Len(Alpha) : (Len(w) < MAXTOK - 1 \/ TIER = "thorough" \/ i \in Core) /\ w' = Append(w, i)
            /\ UNCHANGED <<mode, edits>>
         \/ /\ mode = "core" /\ Len(w) < MAXCORE /\ \E i \in Core : w' = Append(w, i) /\ UNCHANGED <<mode, edits>>
         \/ /\ mode = "tiny" /\ Len(w) < MAXTINY /\ \E i \in Tiny : w' = Append(w, i) /\ UNCHANGED <<mode, edits>>
+        \/ /\ mode = "item" /\ Len(w) < MAXTINY - 1 /\ \E i \in Items : w' = Append(w, i) /\ UNCHANGED <<mode, edits>>
 Edit == /\ mode = "mut" /\ edits < MAXEDITS /\ w.cut = 0
         /\ LET t == w.toks  m == Len(w.toks)
                second == edits >= 1           \* second edits are restricted to deletion and truncation
